@@ -417,6 +417,11 @@ func (c *Ctx) renamedField(name string) *types.Var {
 	}
 	cur := c.currentFingerprints()
 	best, bestScore, second := "", 0.0, 0.0
+	type fcand struct {
+		name  string
+		score float64
+	}
+	var fcands []fcand
 	for cn, fp := range cur.Fields {
 		if fp.Struct != old.Struct || fp.Type != old.Type {
 			continue
@@ -425,10 +430,32 @@ func (c *Ctx) renamedField(name string) *types.Var {
 			continue
 		}
 		s := jaccard(old.Users, fp.Users)
+		fcands = append(fcands, fcand{cn, s})
 		if s > bestScore {
 			second, bestScore, best = bestScore, s, cn
 		} else if s > second {
 			second = s
+		}
+	}
+	if best != "" && bestScore >= 0.5 && second > bestScore-0.2 {
+		// sibling fields of one type renamed together (precedingNewlines / precedingSpaces ->
+		// gapNewlines / gapSpaces) have the same users: the spelling breaks the tie when one
+		// candidate's name is clearly the closest to the audited name
+		short := func(n string) string { return n[strings.LastIndex(n, ".")+1:] }
+		b0, b1, bn := -1.0, -1.0, ""
+		for _, fc := range fcands {
+			if fc.score <= bestScore-0.2 {
+				continue
+			}
+			r := lcsRatio(short(name), short(fc.name))
+			if r > b0 {
+				b1, b0, bn = b0, r, fc.name
+			} else if r > b1 {
+				b1 = r
+			}
+		}
+		if b0 >= 0.4 && b1 <= b0-0.15 {
+			best, second = bn, 0
 		}
 	}
 	if best == "" || bestScore < 0.5 || second > bestScore-0.2 {
